@@ -204,7 +204,7 @@ def c01_impl(ctx, n_quick, n_thorough, gen, label, prop_text):
 def c01(ctx):
     import p_py
     p_py.py_units(ctx, ctx.tier == 'quick')
-    c01_impl(ctx, 1500, 25000, gen_verify_case, 'tree:verify',
+    c01_impl(ctx, 3000, 25000, gen_verify_case, 'tree:verify',
              'verification verdict differs from the reference (C01: success iff every entry matches and every walked file is covered)')
     # directory symlinks to siblings / other directories are followed and their files treated like any others
     r = ctx.rng('c01graphs')
@@ -234,7 +234,7 @@ def gen_keepgoing_case(r):
 
 
 def c07(ctx):
-    res = c01_impl(ctx, 1500, 25000, gen_keepgoing_case, 'tree:keep-going',
+    res = c01_impl(ctx, 3000, 25000, gen_keepgoing_case, 'tree:keep-going',
                    'keep-going verification: handler calls / result differ from the reference (C07: every offending path once, '
                    'result false iff a call answered False)')
     multi = sum(1 for c, i, m in res if i[0] == 'ok' and any(x[0] == 'ok' and isinstance(x[1], list) and len(x[1]) == 2
@@ -372,7 +372,7 @@ def chain_case(r):
 
 
 def c02(ctx):
-    res = c01_impl(ctx, 1500, 25000, chain_case, 'tree:chain-tamper',
+    res = c01_impl(ctx, 2500, 25000, chain_case, 'tree:chain-tamper',
                    'tampering below an untouched Manifest: result differs from the reference (C02)')
     detected = 0
     for c, i, m in res:
@@ -428,7 +428,7 @@ def fault_case(r):
 
 
 def c06(ctx):
-    res = c01_impl(ctx, 1500, 25000, fault_case, 'tree:faults',
+    res = c01_impl(ctx, 3000, 25000, fault_case, 'tree:faults',
                    'with an injected I/O error the result differs from the reference (C06: the error or a mismatch, never success)')
     hit = 0
     for c, i, m in res:
@@ -437,7 +437,7 @@ def c06(ctx):
     ctx.cov['engines']['tree:faults']['runs_ending_with_the_injected_error'] = hit
     # the update side: scan of unregistered Manifests, refresh, save - with a fault on one object
     import p_update as PU
-    res2 = c01_impl(ctx, 700, 12000, lambda r: PU.gen_c10_case(r, 'fault'), 'tree:faults-update',
+    res2 = c01_impl(ctx, 1500, 12000, lambda r: PU.gen_c10_case(r, 'fault'), 'tree:faults-update',
                     'with an injected I/O error during update the result differs from the reference (C06: the error, never success)')
     hit2 = wrote = 0
     for c, i, m in res2:
@@ -582,7 +582,7 @@ def c16(ctx):
         cases.append(c)
     # the update / create walks (incl. the scan for unregistered Manifests) over the same hazards
     import p_update as PU
-    for _ in range(300 if quick else 4000):
+    for _ in range(800 if quick else 4000):
         cases.append(PU.gen_c10_case(r, r.choice(['xdev', 'loop'])))
     # ... and over the enumerated symlink graphs
     for s in (specs[::6] if quick else specs[::3]):
